@@ -340,7 +340,7 @@ def rand_split(rng, n, kmax=6, empties=False):
     if n == 0:
         return [0] * (k if empties else 1)
     if empties:
-        cuts = sorted(rng.choice([0, 0, 1, 2, 3, 4, n, rng.randrange(0, n + 1)]) for _ in range(k - 1))
+        cuts = sorted(min(n, rng.choice([0, 0, 1, 2, 3, 4, n, rng.randrange(0, n + 1)])) for _ in range(k - 1))
     else:
         k = min(k, n)
         pool = list(range(1, n))
